@@ -142,7 +142,21 @@ static void run_case(Rng& r, Ctx& c)
   else
   {
     grid = Grid(nd, VI(g.nx), VD(g.x0), VD(g.dx));
-    if (!g.angles.empty()) grid.setRotationByAngles(VD(g.angles));
+    if (!g.angles.empty())
+    {
+      if (c.icase % 2 == 0) grid.setRotationByAngles(VD(g.angles));
+      else
+      {
+        // the same rotation given by its matrix (Grid::setRotationByMatrix), the matrix being read from another Grid object
+        Grid other(nd, VI(g.nx), VD(g.x0), VD(g.dx));
+        other.setRotationByAngles(VD(g.angles));
+        MatrixSquareGeneral rm(other.getRotation().getMatrixDirect());
+        // first a different rotation, so that a stale inverse cannot be right by accident
+        grid.setRotationByAngles(nd == 2 ? VectorDouble({17., 0.}) : VectorDouble({17., -23., 41.}));
+        grid.setRotationByMatrix(rm);
+        c.probe("rotation-by-matrix");
+      }
+    }
   }
 
   // ---------------------------------------------------------------------------------------------------------------
@@ -288,6 +302,21 @@ static void run_case(Rng& r, Ctx& c)
           if (nb[kk] >= 0)
             c.truth("belongs-to-other-cell", "C16:sampleBelongsToCell:neighbour-cell-accepted",
                     !grid.sampleBelongsToCell(x, grid.indiceToRank(nb)), det + " neighbour " + vstr(nb));
+          // the overload taking the coordinates of the node ("center Coordinates of the grid node center"); both vectors are
+          // the harness's own copies
+          {
+            VectorDouble xq = VD(std::vector<double>(x.begin(), x.end()));
+            auto toD = [](const std::vector<refg::LD>& v) { VectorDouble o(v.size()); for (size_t i = 0; i < v.size(); i++) o[i] = (double)v[i]; return o; };
+            VectorDouble cen = toD(refg::coordI(g, cell));
+            c.truth("belongs-to-cell", "C16:sampleBelongsToCell(center):own-cell-rejected", grid.sampleBelongsToCell(xq, cen), det);
+            if (nb[kk] >= 0)
+            {
+              VectorDouble xq2 = VD(std::vector<double>(x.begin(), x.end()));
+              VectorDouble cen2 = toD(refg::coordI(g, nb));
+              c.truth("belongs-to-other-cell", "C16:sampleBelongsToCell(center):neighbour-cell-accepted", !grid.sampleBelongsToCell(xq2, cen2),
+                      det + " neighbour " + vstr(nb));
+            }
+          }
         }
       }
       else
